@@ -80,7 +80,7 @@ var c11Pool = []c11Thread{
 	{Src: "x = dir([]); x[0] = 'hacked'; x[1] = 'hacked'; x.len()", ValOnly: true}, {Src: "x = dir({}); x.pop(); x.push('hacked'); x[0] = 'hacked'; x.len()", ValOnly: true}, {Src: "x = dir(&c); x[0] = 'hacked'; 1", ValOnly: true},
 	{Src: "x = [1,2].kh; y = [3].kh; [x(), y()]"},
 	// a VM that runs into its own parse budget, next to VMs that parse the same kind of text within theirs
-	{Src: "1+2+3+4+5+6+7+8+9+(1+2+3+4+5+6+7+8+9)+[1,2,3,4,5,6,7,8,9].sum()", ParseLimit: 300}, {Src: "1+2+3+4+5+6+7+8+9+(1+2+3+4+5+6+7+8+9)+[1,2,3,4,5,6,7,8,9].sum()"}, {Src: "1+2+3+4+5+6+7+8+9+(1+2"},
+	{Src: "1+2+3+4+5+6+7+8+9+(1+2+3+4+5+6+7+8+9)+[1,2,3,4,5,6,7,8,9].sum()", ParseLimit: 300, SeqOnly: true}, {Src: "1+2+3+4+5+6+7+8+9+(1+2+3+4+5+6+7+8+9)+[1,2,3,4,5,6,7,8,9].sum()", SeqOnly: true}, {Src: "1+2+3+4+5+6+7+8+9+(1+2", SeqOnly: true},
 	// computed values without attributes that read / write a name nobody has defined (each VM has its own scopes)
 	{Src: "&rd = tq9 ?? 0; rd + rd"}, {Src: "&wr = (tq9 = 5) + 1; wr + wr"}, {Src: "&rd2 = tq8; func g(){ rd2 }; g()"}, {Src: "func w(){ &k = (tq8 = 7); k }; w()"},
 }
